@@ -509,3 +509,20 @@ Theorem ordinalize_get_is_code : forall L c n, In L all_locales -> kc_ok L c ->
   end.
 Proof. exact HumanizeGlueFacts.ordinalize_get_is_code. Qed.
 Print Assumptions ordinalize_get_is_code.
+
+(* ---- magnitude, CROSS-ZONE, universal (pure-Python helper): two aware datetimes in differently named zones at ANY offsets (cross_pair of
+   Proofs/C06Cross.v; also the second occurrence of a repeated wall time), less than a day apart, the instance the earlier INSTANT: the count of the
+   phrase is within one unit of the TRUE elapsed time p_instant b - p_instant a (whole seconds), and 'a few seconds' is said only for at most 10 s.
+   This is within_one_unit_true_elapsed without the zero-offset restriction; like it, it is stated for less than a day (where the difference has no
+   day / month / year part; beyond a day the calendar units are not a fixed number of seconds: within_one_unit_calendar).  The compiled helper is
+   refuted on such pairs (diff_rs_cross_zone_refuted above, finding rs-cross-zone-shift). ---- *)
+From PV Require Import Proofs.C06Cross Proofs.C18Cross.
+
+Theorem within_one_unit_true_elapsed_cross_zone : forall a b, cross_pair a b -> 0 < p_instant b - p_instant a < us_per_day ->
+  exists c, diff_comps false a b = Ok (c, false) /\
+    match gen_pick c with
+    | Some (u, n) => Z.abs (n * unit_seconds u - (p_instant b - p_instant a) / 1000000) < unit_seconds u
+    | None => (p_instant b - p_instant a) / 1000000 <= 10
+    end.
+Proof. exact within_one_unit_true_elapsed_cross_zone_lemma. Qed.
+Print Assumptions within_one_unit_true_elapsed_cross_zone.
